@@ -429,7 +429,9 @@ func (s neverMatchSelector) Match(n *html.Node) bool {
 }
 
 func (s neverMatchSelector) Specificity() Specificity {
-	return Specificity{0, 0, 0}
+	// a pseudo-class that cannot match in a static document still weighs
+	// as a pseudo-class : it matters in :not() and :is()
+	return Specificity{0, 1, 0}
 }
 
 func (c neverMatchSelector) PseudoElement() string {
